@@ -423,6 +423,12 @@ class _Idioms(ast.NodeTransformer):
     def visit_Expr(self, node):
         node = self.generic_visit(node)
         c = node.value
+        # setattr(X, 'name', V)  ->  X.name = V
+        if isinstance(c, ast.Call) and isinstance(c.func, ast.Name) and c.func.id == 'setattr' and len(c.args) == 3 and not c.keywords and isinstance(c.args[1], ast.Constant) \
+                and isinstance(c.args[1].value, str) and c.args[1].value.isidentifier():
+            new = ast.Assign(targets=[ast.Attribute(value=c.args[0], attr=c.args[1].value, ctx=ast.Store())], value=c.args[2], type_comment=None)
+            _fix(new, node); ast.fix_missing_locations(new)
+            return new
         # print(X, file=F)  ->  F.write(f"{X}\n")      (one positional argument, no sep / end / flush)
         if isinstance(c, ast.Call) and isinstance(c.func, ast.Name) and c.func.id == 'print' and len(c.args) == 1 and not isinstance(c.args[0], ast.Starred) \
                 and len(c.keywords) == 1 and c.keywords[0].arg == 'file':
@@ -493,12 +499,25 @@ class _Idioms(ast.NodeTransformer):
         """a, b = X, Y  ->  a = X; b = Y   when no right-hand side reads a target (plain names on the left) and the right-hand sides are pure"""
         out = []
         for st in stmts:
+            # a, b = (F(x) for x in (k1, k2))  ->  a, b = F(k1), F(k2)
+            if isinstance(st, ast.Assign) and len(st.targets) == 1 and isinstance(st.targets[0], ast.Tuple) and isinstance(st.value, (ast.GeneratorExp, ast.ListComp)) \
+                    and len(st.value.generators) == 1 and not st.value.generators[0].ifs and not st.value.generators[0].is_async and isinstance(st.value.generators[0].target, ast.Name) \
+                    and isinstance(st.value.generators[0].iter, (ast.Tuple, ast.List)) and all(isinstance(x, ast.Constant) for x in st.value.generators[0].iter.elts) \
+                    and len(st.value.generators[0].iter.elts) == len(st.targets[0].elts):
+                g_ = st.value.generators[0]
+                st.value = _fix(ast.Tuple(elts=[_Subst({g_.target.id: c}).visit(copy.deepcopy(st.value.elt)) for c in g_.iter.elts], ctx=ast.Load()), st.value)
+                ast.fix_missing_locations(st.value)
+            def simple_target(t):
+                return isinstance(t, ast.Name) or (isinstance(t, ast.Attribute) and isinstance(t.value, ast.Name) and t.value.id == 'self')
             if isinstance(st, ast.Assign) and len(st.targets) == 1 and isinstance(st.targets[0], ast.Tuple) and isinstance(st.value, ast.Tuple) \
-                    and len(st.targets[0].elts) == len(st.value.elts) and all(isinstance(t, ast.Name) for t in st.targets[0].elts) \
+                    and len(st.targets[0].elts) == len(st.value.elts) and all(simple_target(t) for t in st.targets[0].elts) \
                     and not any(isinstance(v, ast.Starred) for v in st.value.elts):
-                names = {t.id for t in st.targets[0].elts}
-                reads = {n.id for v in st.value.elts for n in ast.walk(v) if isinstance(n, ast.Name)}
-                if not (names & reads) and len(names) == len(st.targets[0].elts) and all(_pure(v) for v in st.value.elts[:-1]):
+                names = {ast.unparse(t) for t in st.targets[0].elts}
+                reads = {n.id for v in st.value.elts for n in ast.walk(v) if isinstance(n, ast.Name)} | {ast.unparse(n) for v in st.value.elts for n in ast.walk(v) if isinstance(n, ast.Attribute)}
+                attr_targets = any(isinstance(t, ast.Attribute) for t in st.targets[0].elts)
+                # with attribute targets, a call on the right could read them through another path: only calls that take no receiver `self`
+                calls_self = any(isinstance(n, ast.Call) and any(isinstance(x, ast.Name) and x.id == 'self' for x in ast.walk(n)) for v in st.value.elts for n in ast.walk(v))
+                if not (names & reads) and len(names) == len(st.targets[0].elts) and (all(_pure(v) for v in st.value.elts[:-1]) or (not (attr_targets and calls_self) and not (names & reads))):
                     for t, v in zip(st.targets[0].elts, st.value.elts):
                         a = ast.Assign(targets=[t], value=v, type_comment=None)
                         out.append(_fix(a, st))
@@ -512,6 +531,24 @@ class _Idioms(ast.NodeTransformer):
         the body does not assign x)"""
         out = []
         for st in stmts:
+            # for a, b in ((X1, Y1), (X2, Y2)): BODY  ->  BODY[a:=X1, b:=Y1]; BODY[a:=X2, b:=Y2]   (names / attribute chains only; the body assigns neither a nor b nor what they read)
+            if isinstance(st, ast.For) and not st.orelse and isinstance(st.target, ast.Tuple) and all(isinstance(t, ast.Name) for t in st.target.elts) \
+                    and isinstance(st.iter, (ast.Tuple, ast.List)) and 1 <= len(st.iter.elts) <= 4 \
+                    and all(isinstance(x, (ast.Tuple, ast.List)) and len(x.elts) == len(st.target.elts) and all(_atomic(y) or isinstance(y, ast.Constant) for y in x.elts) for x in st.iter.elts) \
+                    and not any(isinstance(n, (ast.Break, ast.Continue)) for b in st.body for n in ast.walk(b)) and sum(1 for b in st.body for _ in ast.walk(b)) <= 400:
+                tnames = {t.id for t in st.target.elts}
+                read_names = {n.id for x in st.iter.elts for y in x.elts for n in ast.walk(y) if isinstance(n, ast.Name)}
+                stored = {n.id for b in st.body for n in ast.walk(b) if isinstance(n, ast.Name) and isinstance(n.ctx, (ast.Store, ast.Del))}
+                stored_attrs = {ast.unparse(n) for b in st.body for n in ast.walk(b) if isinstance(n, ast.Attribute) and isinstance(n.ctx, (ast.Store, ast.Del))}
+                read_attrs = {ast.unparse(y) for x in st.iter.elts for y in x.elts if isinstance(y, ast.Attribute)}
+                if not (stored & (tnames | read_names)) and not (stored_attrs & read_attrs):
+                    for x in st.iter.elts:
+                        mp = {t.id: y for t, y in zip(st.target.elts, x.elts)}
+                        for b in st.body:
+                            nb = _Subst(mp).visit(copy.deepcopy(b))
+                            ast.fix_missing_locations(nb)
+                            out.append(nb)
+                    continue
             if isinstance(st, ast.For) and not st.orelse and isinstance(st.target, ast.Name) and isinstance(st.iter, (ast.Tuple, ast.List)) and 1 <= len(st.iter.elts) <= 4 \
                     and all(isinstance(x, ast.Constant) for x in st.iter.elts) \
                     and not any(isinstance(n, (ast.Break, ast.Continue)) for b in st.body for n in ast.walk(b)) \
